@@ -1384,18 +1384,17 @@ def info_for_single_file(root_path, verbose, single_file):
                         f"     CreatorInfo: {creatorInfo}\n"
                         f"     ProcessInfo: {processInfo}"
                     )
-                    if media_hash.previous_path and history_relative_path == media_hash.path:
-                        logger.info(
-                            " In previous generations the file was named: {}\n\n".format(media_hash.previous_path)
-                        )
-                        info_for_single_file(
-                            root_path, verbose, [os.path.join(history.get_root_path(), media_hash.previous_path)]
-                        )
                 else:
                     logger.info(
                         f"  Generation {hash_list.generation_number} ({hash_list.creator_info.creation_date})"
                         f" {hash_entry.hash_format}: {hash_entry.hash_string} ({hash_entry.action})"
                     )
+            # follow a renamed file to its former name once per generation, not once per hash entry of the record
+            if logger.verbose_logging == True and media_hash.previous_path and history_relative_path == media_hash.path:
+                logger.info(" In previous generations the file was named: {}\n\n".format(media_hash.previous_path))
+                info_for_single_file(
+                    root_path, verbose, [os.path.join(history.get_root_path(), media_hash.previous_path)]
+                )
 
 
 @click.command()
